@@ -38,11 +38,11 @@ def restrictionOf (ty : String) : Restriction :=
     if ty.startsWith Gen.STARTING_CHAR_FOR_SHAPE_NAME then Restriction.node (shapeIri ty)
     else Restriction.datatype ty
 
-/-- `_add_constraint`: instantiation constraints always get a direct path and `sh:in`; the others
+/-- `_add_constraint`: instantiation constraints get `sh:in` (and, since the repair, the path of their direction); the others
 `_add_node_type` + `_add_cardinality` + `_add_path` -/
 def propShapeOf (cfg : Config) (s : Stmt) : PropShape :=
   if s.prop == cfg.instProp then
-    { inverse := false, path := s.prop, restr := Restriction.inValue s.ty,
+    { inverse := s.inverse, path := s.prop, restr := Restriction.inValue s.ty,
       min := Gen.min_occurs_from_cardinality s.card, max := Gen.max_occurs_from_cardinality s.card }
   else
     { inverse := s.inverse, path := s.prop, restr := restrictionOf s.ty,
